@@ -232,9 +232,10 @@ def forbidden_hits(mod):
 def lean_obligations(pid, st, log, tier):
     """build the property's proof modules, audit axioms. Returns dict."""
     cfg = props.PROPS[pid]
-    mods = [m for m in cfg.get("modules", []) if os.path.exists(module_file(m))]
+    wanted = list(cfg.get("modules", [])) + (list(cfg.get("modules_thorough", [])) if tier == "thorough" else [])
+    mods = [m for m in wanted if os.path.exists(module_file(m))]
     # a regenerated module that is no longer produced (the translator refuses the function now) is an obligation that no longer checks
-    missing = [m for m in cfg.get("modules", []) if m.startswith("EdVerif.Gen.") and not os.path.exists(module_file(m))]
+    missing = [m for m in wanted if m.startswith("EdVerif.Gen.") and not os.path.exists(module_file(m))]
     res = {"modules": mods, "obligations": 0, "discharged": 0, "failed": [], "axioms": {}, "forbidden": {}, "checker_cmd": "",
            "theorems": []}
     if not mods:
